@@ -1,7 +1,8 @@
 -------------------------------- MODULE Sim_Grad --------------------------------
 (* Random parametrised circuits with parameter sharing (tlc -simulate):  every parametrised gate gets either a fresh
    parameter cell, the cell of an earlier gate object of the same kind (append_gate re-use) or a placeholder cell that other
-   gates may also reference.  The observation is the loss and the exact gradient for every (cell, slot).
+   gates may also reference.  The observation is the loss, the exact gradient for every (cell, slot) and
+   the coefficients of the loss as a linear form of the input state (= its gradient with respect to the input state).
    Self-check (shift rule for amplitude-linear losses): for a cell used by exactly one rotation gate
    dL/dtheta = [L(theta+pi) - L(theta-pi)] / 4   (L has frequency theta/2). *)
 EXTENDS Grad, TLC
@@ -25,8 +26,11 @@ Cells(gs) == {gs[i].cell : i \in {j \in 1..Len(gs) : IsParam(gs[j].op)}}
 MkObs(gs, n) == [n |-> n, loss |-> FoldLeft(LAMBDA a, R : [val |-> Inner(Phi(n), R.v), e |-> R.e], 0, <<Run(gs, Base(n), n)>>),
                  grad |-> [c \in 1..ncell' |-> IF c \in Cells(gs)
                               THEN LET i0 == CHOOSE i \in 1..Len(gs) : IsParam(gs[i].op) /\ gs[i].cell = c IN [s \in 1..NPar(gs[i0].op) |-> DCell(gs, c, s, n)]
-                              ELSE <<>>]]
-Init == CInit /\ ncell = 0 /\ obs = [n |-> 0, loss |-> [val |-> OZero, e |-> 0], grad |-> <<>>]
+                              ELSE <<>>],
+                 \* the loss is linear in the input state: amp[j] = <Phi | U | e_j> is its coefficient, so for ANY input state psi the loss is
+                 \* Re sum_j amp[j] psi[j] and the gradient with respect to psi[j] (PyTorch convention dL/dRe + i dL/dIm) is conj(amp[j])
+                 amp |-> [j \in 1..2^n |-> FoldLeft(LAMBDA a, R : [val |-> Inner(Phi(n), R.v), e |-> R.e], 0, <<Run(gs, [v |-> BasisVec(n, j - 1), e |-> 0], n)>>)]]
+Init == CInit /\ ncell = 0 /\ obs = [n |-> 0, loss |-> [val |-> OZero, e |-> 0], grad |-> <<>>, amp |-> <<>>]
 Step(newgates) == gates' = newgates /\ \E n \in {NumQ(newgates)} : \E o \in {MkObs(newgates, n)} : obs' = o
 \* a parametrised gate with a fresh cell (own object, or a new placeholder entry when the kind supports placeholders)
 DoFresh == \E s \in {RandomElement(PShapes)} : \E x \in {RandomElement(0..1023)} : \E r \in {[k |-> x % 8, p |-> (x \div 8) % 8, l |-> (x \div 64) % 8]} : \E h \in {x >= 512} :
@@ -52,4 +56,6 @@ ShiftOK == \A i \in 1..Len(gates) :
          \* g.val / sqrt2^g.e = (lp.val - lm.val) / (4 sqrt2^lp.e),  g.e = lp.e + 2  =>  2 Re(g.val) = Re(lp.val - lm.val)
          /\ g.e = lp.e + 2 /\ lp.e = lm.e
          /\ RealPart2(OScale(2, g.val)) = RealPart2(OSub(lp.val, lm.val))
+\* the loss of the run from |0..0> is the first coefficient
+AmpOK == obs.n > 0 => obs.amp[1] = obs.loss
 =============================================================================
